@@ -18,6 +18,7 @@ import (
 	"runtime/debug"
 	"sort"
 	"strings"
+	"sync"
 	"sync/atomic"
 	"testing"
 	"time"
@@ -65,7 +66,44 @@ var (
 	watchdog      = 60 * time.Second
 	watchdogAfter = 15 * time.Second // once a failure is recorded (shrinking re-runs)
 	failedOnce    int32
+	failedAt      int64    // unix nanoseconds of the first recorded failure
+	failCache     sync.Map // script -> failure message of cases that failed in this process
 )
+
+// Once a failure is recorded the verdict of the process is settled; what
+// follows only serves rapid's shrinker, whose passes can make ~100 attempts
+// without looking at its deadline. Hanging candidates cost a watchdog each, so
+// after shrinkBudget unseen candidates are no longer run (they count as "not
+// failing"); candidates that already failed are answered from failCache so the
+// minimal case rapid re-runs at the end fails the same way.
+const shrinkBudget = 45 * time.Second
+
+func recordFailure(src, msg string) {
+	if atomic.CompareAndSwapInt32(&failedOnce, 0, 1) {
+		atomic.StoreInt64(&failedAt, time.Now().UnixNano())
+	}
+	failCache.Store(src, msg)
+}
+
+// afterFailure reports (cached failure message, skip) for a candidate
+// evaluated after the first failure of the process.
+func afterFailure(src string) (string, bool) {
+	if atomic.LoadInt32(&failedOnce) == 0 {
+		return "", false
+	}
+	if m, ok := failCache.Load(src); ok {
+		return m.(string), false
+	}
+	if time.Since(time.Unix(0, atomic.LoadInt64(&failedAt))) > shrinkBudget {
+		ev.Note("shrink budget exhausted: candidate not run")
+		return "", true
+	}
+	return "", false
+}
+
+func failText(msg, src string) string {
+	return msg + "\n--- script ---\n" + src + "=> " + msg
+}
 
 type payload struct {
 	Kind     string    `json:"kind"` // "template" | "notself"
@@ -492,14 +530,20 @@ func checkTemplate(t ev.TB, test string, tp *Template) {
 		t.Fatalf("invalid template: %v", err)
 		return
 	}
+	if msg, skip := afterFailure(tp.Render()); skip {
+		return
+	} else if msg != "" {
+		ev.Fail(t, test, payload{Kind: "template", Template: tp, Source: tp.Render()}, "%s", failText(msg, tp.Render()))
+		return
+	}
 	v, src := evalTemplate(tp, false)
 	if v.Discard != "" {
 		ev.Discard(v.Discard)
 		return
 	}
 	if v.Fail != "" {
-		atomic.StoreInt32(&failedOnce, 1)
-		ev.Fail(t, test, payload{Kind: "template", Template: tp, Source: src}, "%s\n--- script ---\n%s", v.Fail, src)
+		recordFailure(src, v.Fail)
+		ev.Fail(t, test, payload{Kind: "template", Template: tp, Source: src}, "%s", failText(v.Fail, src))
 		return
 	}
 	nontrivial := tp.N >= 1025 || tp.Collect > 0
@@ -618,7 +662,7 @@ type genMode struct {
 
 func drawTemplate(t *rapid.T, m genMode) *Template {
 	tp := &Template{VarN: -1}
-	tp.Fixed = rapid.SampledFrom([]int{0, 1, 1, 2, 2, 2, 3, 3, 4, 5}).Draw(t, "fixed")
+	tp.Fixed = rapid.SampledFrom([]int{0, 0, 1, 1, 2, 2, 2, 3, 3, 4, 5}).Draw(t, "fixed")
 	if rapid.IntRange(0, 3).Draw(t, "variadic") == 0 {
 		tp.VarN = rapid.IntRange(0, 3).Draw(t, "varN")
 		tp.Spread = rapid.IntRange(0, 2).Draw(t, "spread")
@@ -927,8 +971,15 @@ func checkNotSelf(t ev.TB, test string, ns *NotSelf) {
 		zone = "must-value"
 	}
 	fail := func(format string, args ...interface{}) {
-		atomic.StoreInt32(&failedOnce, 1)
-		ev.Fail(t, test, payload{Kind: "notself", NotSelf: ns, Source: src}, "%s\n--- script ---\n%s", fmt.Sprintf(format, args...), src)
+		msg := fmt.Sprintf(format, args...)
+		recordFailure(src, msg)
+		ev.Fail(t, test, payload{Kind: "notself", NotSelf: ns, Source: src}, "%s", failText(msg, src))
+	}
+	if msg, skip := afterFailure(src); skip {
+		return
+	} else if msg != "" {
+		ev.Fail(t, test, payload{Kind: "notself", NotSelf: ns, Source: src}, "%s", failText(msg, src))
+		return
 	}
 	r := runScript(src, "out")
 	outcome := "value"
@@ -1068,6 +1119,18 @@ func TestContextTable(t *testing.T) {
 				for _, tp := range variants {
 					run(tp)
 				}
+				if pi == 0 && c != "logic" && c != "last" {
+					// counter-only function: two operand slots per level, so the
+					// frame limit (not the operand stack) binds first
+					for _, m := range []int64{n, n - 2, n - 3} {
+						if m < 0 || (m != n && (n < 1023 || n > 1025)) {
+							continue
+						}
+						tp := &Template{Fixed: 0, VarN: -1, Mod: 1, Style: "chain", Place: place, N: m}
+						tp.Arms = []Arm{{Ctx: c, K: -1, X: 5, Next: []*Expr{}}}
+						run(tp)
+					}
+				}
 			}
 		}
 	}
@@ -1147,7 +1210,7 @@ func replayFile(t *testing.T, path string, known bool) (failMsg string) {
 		}
 		v, src := evalTemplate(p.Template, true)
 		if v.Fail != "" {
-			ev.Fail(t, test, p, "%s\n--- script ---\n%s", v.Fail, src)
+			ev.Fail(t, test, p, "%s", failText(v.Fail, src))
 		}
 	case "notself":
 		if p.NotSelf == nil || p.NotSelf.StepE == nil || p.NotSelf.StepO == nil {
